@@ -111,6 +111,53 @@ def install_lock_seam():
                     if isinstance(v2, real_types):
                         setattr(val, a2, SimLock(isinstance(v2, real_types[1])))
                         n += 1
+            else:
+                n += _swap_inside(val, real_types, 0, set())
+    return n
+
+
+def _own(obj):
+    m = getattr(type(obj), '__module__', '') or ''
+    return m == 'hotxlfp' or m.startswith('hotxlfp.') or m == 'ply' or m.startswith('ply.')
+
+
+def _swap_inside(obj, real_types, depth, seen):
+    """Locks held as attributes of module-level objects of the code under test (e.g. a lazy-initialisation holder
+    created at import time), up to three levels deep."""
+    if depth > 3 or id(obj) in seen:
+        return 0
+    seen.add(id(obj))
+    n = 0
+    if isinstance(obj, dict):
+        for k, v in list(obj.items()):
+            if isinstance(v, real_types):
+                obj[k] = SimLock(isinstance(v, real_types[1]))
+                n += 1
+            else:
+                n += _swap_inside(v, real_types, depth + 1, seen)
+        return n
+    if isinstance(obj, (list, tuple, set, frozenset)):
+        for v in list(obj):
+            n += _swap_inside(v, real_types, depth + 1, seen)
+        return n
+    if not _own(obj):
+        return 0
+    names = list(getattr(obj, '__dict__', {}).keys())
+    for klass in type(obj).__mro__:
+        names.extend(getattr(klass, '__slots__', ()) if isinstance(getattr(klass, '__slots__', ()), (tuple, list)) else [])
+    for a in names:
+        try:
+            v = getattr(obj, a)
+        except Exception:
+            continue
+        if isinstance(v, real_types):
+            try:
+                setattr(obj, a, SimLock(isinstance(v, real_types[1])))
+                n += 1
+            except Exception:
+                pass
+        else:
+            n += _swap_inside(v, real_types, depth + 1, seen)
     return n
 
 
